@@ -1661,8 +1661,9 @@ theorem spawnExecPipe_spec {s : St} {M : Nat} (h : CleanX (TX 0 (2 * M)) s) (inj
         rintro (⟨k, hk, _, h3⟩ | hk)
         · have := temp_inj hk; omega
         · have := temp_inj hk; omega))
-    have t3 := (t2.close (o := .temp (2 * M + 1)) (g := false) rfl rfl).close (o := .temp (2 * M)) (g := false) rfl rfl
-    rw [run_cons, run_cons, run_cons]
+    have t3 := ((t2.tick inj "fork").close (o := .temp (2 * M + 1)) (g := false) rfl rfl).close (o := .temp (2 * M)) (g := false) rfl rfl
+    have e2 : ∀ (t : St) (a b : Prim), t.run [a, b] = (t.run [a]).run [b] := fun t a b => run_cons t a [b]
+    rw [e2, e2]
     exact t3.weaken (by
       rintro o ⟨⟨(ho | ho) | ho, h1⟩, h2⟩
       · exact Or.inr ho
